@@ -3,7 +3,7 @@ centred, normalised and scaled in world units; width conversions.
 
 Sections
   geometry     exact correspondence: kernel shape, centre inside the cropped kernel, FFT
-               buffer shape, output window and spatial offset observed on the running code,
+               buffer shape, _kcenter, output window and peak offset observed on the running code,
                compared with the Coq model (NV.C18.Model.geom_diag / geom3, vm_compute).
   values       smoothed images against direct (non-FFT) convolution with the code's kernel
                under the model's index formula, at 1e-10 (random images, impulses at every
@@ -160,6 +160,8 @@ def observe(ck, A3, t, shape, fwhm):
     c.w0 = tuple(a - b for a, b in zip(c.ck, c.off))
     c.w1 = tuple(a + b for a, b in zip(c.w0, c.out_shape))
     c.impl = [[c.k[i], c.ck[i], c.L[i], c.w0[i], c.w1[i], c.off[i]] for i in range(3)]
+    kc = getattr(c.f, "_kcenter", None)
+    c.kcenter = None if kc is None else tuple(int(v) for v in kc)
     c.coordmap_ok = (im.coordmap == c.cm)
     return c
 
@@ -179,9 +181,7 @@ def shift_is_known(c):
 
 def model_terms(c, thorough=True):
     """Coq boolean terms: model geometry == observed geometry"""
-    sig = c.sigma
-    # `if self.fwhm != 1.0` guard of _normsq is part of the model (eff_sigma)
-    sigq = "(eff_sigma %s %s)" % (cq(c.fwhm), cq(sig))
+    sigq = cq(c.sigma)
     impl = clist([czl(r) for r in c.impl])
     terms = []
     if is_diag(c.A3):
@@ -209,10 +209,10 @@ def check_values(ck, c, x, tag, scale=1.0, loc=0.0, f=None, full=None):
         return None
     if full is None:
         full = conv_full(x, c.K) / c.S
-    exp_model = scale * window(full, [k // 2 for k in c.k], c.shape) + loc
+    exp_model = scale * window(full, c.ck, c.shape) + loc      # model: the window starts at _kcenter = c_k
     if out.shape != exp_model.shape or not np.allclose(out, exp_model, rtol=0, atol=TOL * max(1.0, float(np.abs(exp_model).max()))):
         sig = "scale/raises-or-wrong-window" if (scale != 1.0 or loc != 0.0) else "values/fft-vs-direct-convolution"
-        ck.fail(sig, "smooth differs from scale*directconv(x, kernel)[k//2 : n+k//2]/l1sum + location (%s): shape %s fwhm %s max|diff| %s"
+        ck.fail(sig, "smooth differs from scale*directconv(x, kernel)[c_k : n+c_k]/l1sum + location (%s): shape %s fwhm %s max|diff| %s"
                 % (tag, c.shape, c.fwhm, float(np.abs(out - exp_model).max()) if out.shape == exp_model.shape else "shape %s" % (out.shape,)),
                 replay_of(c, x=np.asarray(x).tolist(), scale=scale, location=loc))
     return out, full
@@ -226,8 +226,9 @@ def check_centred(ck, c, x, out, full, tag):
             sig = "centre/not-the-normalised-centred-convolution"     # no index offset: values or normalisation differ
         else:
             sig = SIG_SHIFT if shift_is_known(c) else "centre/shift-other"
-        ck.fail(sig, "smoothed image is shifted by %s voxels (%s): shape %s fwhm %s kernel shape %s centre-in-kernel %s k//2 %s"
-                % ([a - k // 2 for a, k in zip(c.ck, c.k)], tag, c.shape, c.fwhm, c.k, c.ck, [k // 2 for k in c.k]),
+        ck.fail(sig, "smoothed image is not the convolution with the kernel centred on each voxel (%s): shape %s fwhm %s kernel shape %s "
+                "centre-in-kernel %s k//2 %s _kcenter %s; impulse peak offset %s"
+                % (tag, c.shape, c.fwhm, c.k, c.ck, [k // 2 for k in c.k], c.kcenter, list(c.off)),
                 replay_of(c, x=np.asarray(x).tolist()))
         return False
     return True
@@ -277,6 +278,9 @@ def geometry_and_values(ck):
                 # --- direct oracles on the implementation
                 if c.out_shape != tuple(shape) or not c.coordmap_ok:
                     ck.fail("shape-coordmap", "output shape %s / coordmap differ from the input's %s" % (c.out_shape, shape), replay_of(c))
+                if c.kcenter != c.ck:
+                    ck.fail("model-vs-impl/kcenter", "LinearFilter._kcenter = %s, model: the index %s of the centre voxel in the cropped kernel" % (c.kcenter, c.ck),
+                            replay_of(c))
                 if not c.centre_ok:
                     ck.fail("kernel/centre-not-unique-max-1", "cropped kernel has no unique entry equal to 1.0", replay_of(c))
                 # kernel values are the world-unit Gaussian at offsets from the kernel's own centre
@@ -303,7 +307,7 @@ def geometry_and_values(ck):
                             ck.fail(sig, "smooth != convolution with the centred world-unit Gaussian of the requested fwhm although its support fits the grid: shape %s fwhm %s max|diff| %.3g"
                                     % (shape, fwhm, float(np.abs(out - exp_i).max())), replay_of(c, x=x.tolist()))
                 # --- model terms
-                if borderline(A3, c.sigma if fwhm != 1.0 else 1.0, shape):
+                if borderline(A3, c.sigma, shape):
                     nskip += 1
                     continue
                 for tm, mexpr in model_terms(c, ck.thorough()):
@@ -341,7 +345,7 @@ def geometry_and_values(ck):
 
 def impulses(ck):
     """impulse at every voxel of small grids: values against the model formula, peak position
-    p0 + (c_k - k//2) wherever it lies in the grid, centring oracle"""
+    p0 (at the impulse), centring oracle"""
     if ck.thorough():
         shapes = list(itertools.product(range(1, 6), repeat=3)) + list(itertools.product((6, 7, 8), repeat=3))
         affs = [np.diag([1, 1, 1]), np.diag([1, -2, 0.5]), np.array(OBLIQUE[0], float), np.array(OBLIQUE[3], float)]
@@ -356,7 +360,7 @@ def impulses(ck):
         for ai, A3 in enumerate(affs):
             for fwhm in fw:
                 c = observe(ck, A3, (0, 0, 0), shape, fwhm)
-                off_model = [c.ck[i] - c.k[i] // 2 for i in range(3)]
+                off_model = [0, 0, 0]          # model (impulse_response_centred): the peak is at the impulse
                 for p0 in itertools.product(*[range(n) for n in shape]):
                     x = np.zeros(shape)
                     x[p0] = 1
@@ -373,7 +377,7 @@ def impulses(ck):
                     if all(0 <= q[i] < shape[i] for i in range(3)):
                         pk = tuple(int(v) for v in np.unravel_index(int(out.argmax()), out.shape))
                         if pk != q:
-                            ck.fail("model-vs-impl/impulse-peak", "impulse at %s peaks at %s, model says p0 + (c_k - k//2) = %s" % (p0, pk, q),
+                            ck.fail("model-vs-impl/impulse-peak", "impulse at %s peaks at %s, model says at the impulse %s" % (p0, pk, q),
                                     replay_of(c, impulse=list(p0)))
                     if not check_centred(ck, c, x, out, full, "impulse at %s" % (p0,)):
                         pass
@@ -546,7 +550,7 @@ def run(ck):
     import time
     tm = {"coq_build+overlay": round(time.time() - ck.t0, 1)}
     try:
-        for fn in (oracles, impulses, geometry_and_values):
+        for fn in (impulses, oracles, geometry_and_values):      # smallest inputs first
             t0 = time.time()
             fn(ck)
             tm[fn.__name__] = round(time.time() - t0, 1)
